@@ -44,6 +44,11 @@ def run_rules(prop, src, tier):
                       '(its own **kwargs and names re-bound to a fresh copy are its own)', 0)
         for rel in files:
             effects.borrowed_argument_rule(chk, rel, scopes[rel], hid)
+        bid = f'{prop}-H3'
+        chk.rule(bid, 'no call on the path can only raise: builtins (print, len, range, min, max, sorted, ...) are called with keywords and '
+                      'argument counts they accept', 0)
+        for rel in files:
+            effects.builtin_signature_rule(chk, rel, scopes[rel], bid)
         from .core import dtypes
         tid = f'{prop}-T1'
         chk.rule(tid, 'element types: every buffer allocated on the property\'s path has the element kind it has on the reviewed tree '
